@@ -45,6 +45,7 @@ class C17(SamplerProp):
 
     _mode = {}
     _run_index = [0]
+    _xproc = {}      # (configuration, program) -> outcome of the multi-process replay (the same for every counterexample of it)
 
     def setup_shadow(self, SH):
         SamplerProp.setup_shadow(self, SH)
@@ -92,11 +93,15 @@ class C17(SamplerProp):
                 "    out.append([sorted((n, sorted((k, repr(v)) for k, v in d.items() if k != 'graph')) for n, d in mol.nodes(data=True)),"
                 " sorted((min(a,b), max(a,b), repr(sorted(d.items()))) for a, b, d in mol.edges(data=True))])\n"
                 "print(json.dumps(out))\n") % (loader.REPO, cfg['frags'], cfg['aa'], kw, max(float(cinp['target']), 150.0))
+        ck = (shape['cfg'], prog)
+        if ck in self._xproc:
+            return [('identical_molecules_across_processes_with_hash_seeds_0_to_7', self._xproc[ck])]
         dumps = set()
         for hs in range(8):
             env = dict(__import__('os').environ, PYTHONHASHSEED=str(hs), PBR_VERSION='0.0.0')
             p = subprocess.run([_sys.executable, '-c', prog], stdout=subprocess.PIPE, stderr=subprocess.DEVNULL, text=True, env=env, timeout=300)
             dumps.add(p.stdout.strip() if p.returncode == 0 else 'exit %d' % p.returncode)
+        self._xproc[ck] = len(dumps) == 1
         return [('identical_molecules_across_processes_with_hash_seeds_0_to_7', len(dumps) == 1)]
 
     def _decoy(self, M, shape):
